@@ -223,6 +223,7 @@ def coq_value(text):
     if not m:
         return None
     s = re.sub(r"%N|%nat", "", m.group(1))
+    s = re.sub(r"\bSome\b", "", s)
     s = s.replace(";", ",")
     s = re.sub(r"\s+", " ", s)
     return ast.literal_eval(s)
@@ -329,14 +330,14 @@ def run(rep, tier, seed, replay):
     mismatches = []
     for entry in verdicts:
         idx, codes = entry[0], entry[1]
-        cex = entry[2] if len(entry) > 2 else []
+        cex = entry[2] if len(entry) > 2 else None
         t = lines[idx]
         d, _ = describe(t)
         for code in codes:
             robj = dict(d)
             robj.update({"property": PID, "case_index": idx, "input_tokens": input_tokens(t), "code": code,
                          "function": FUNCS.get(code % 10, "decode"), "seed": seed, "tier": tier})
-            if cex:
+            if cex is not None:
                 robj["counter_assignment_true_leaves"] = [show(dec_pol(c, 0)[0]) for c in cex]
             if code >= 30:
                 n_known[code] += 1
@@ -344,7 +345,7 @@ def run(rep, tier, seed, replay):
                 rep.violation(KNOWN_KEYS[code], what_failed(code, d), robj, True)
             elif code >= 20:
                 robj["judgement"] = "the implementation's output violates the truth-table specification"
-                rep.violation("spec:%s:%s" % (FUNCS[code % 10], d["policy"][:80]), what_failed(code, d), robj, True)
+                rep.violation("spec:%s" % FUNCS[code % 10], what_failed(code, d), robj, True)
             else:
                 mismatches.append((idx, code, robj))
     # model mismatches: a property failure on the same case was reported above with the input;
